@@ -36,7 +36,7 @@ impl ToTokens for ErrorCheck<'_> {
         let at_call = if let Some(ref s) = self.location {
             // Only struct variants have a location: whatever goes wrong inside one concerns the
             // nested item that selected the variant.
-            quote!(.map_err(|e| e.with_span(__nested).at(#s)))
+            quote!(.map_err(|__e| __e.with_span(__nested).at(#s)))
         } else {
             quote!()
         };
